@@ -135,6 +135,14 @@ def run(rep, tier, driver):
             continue
         judge(rep, c, o)
     merge_correspondence(rep, tier, driver, cases, outs)
+    # the Lean Model of enumerate_carbon (the numbering every position lookup relies on) against enum_c.py, observed inside real
+    # conversions of the whole residue vocabulary (ring forms, open forms, modified, resized, anhydro) and of the sampled glycans
+    import enumx
+    enames = list(cv.names) + sorted(cv.root_only) + list(cv.divergent) + [n + s for n in vocab.sugars_ol for s in ("-ol", "-onic", "-aric")] + \
+        ["Gal3,4Pyr", "Glc2Cin", "Neu5Gc9Ac", "MurNAc", "Glc3Bz6Bn", "GlcN2Fmoc", "Glc6Lau", "Ins", "Suc", "GlcA6Me", "Kdo8P", "Glc1Me", "Fruf1P6P"] + \
+        [c["iupac"] for c in cases[:120]]
+    rng.shuffle(enames)
+    enumx.run(rep, tier, driver, enames)
 
 
 def merge_correspondence(rep, tier, driver, cases, outs):
